@@ -46,6 +46,8 @@ def step_line(g, ei, kind):
     name = op_name(g, ei)
     if name in ("Assign", "Add", "Sub", "Mul", "Div", "Concat", "AddF", "SubF", "MulF", "DivF", "AssignF", "AddAbsorbed"):
         return "S op=%s v=%s" % (name, enc(kind, args[0]))
+    if name == "MulWrap":     # an ordinary *= whose product wraps around
+        return "S op=Mul v=%s" % args[0]
     if name == "Apply":
         return "S op=Apply f=%s" % args[0]
     if name in ("Subscribe", "Unsubscribe"):
@@ -86,7 +88,9 @@ def check(pid, tier, seed):
         for wi, (init, path) in enumerate(pathcover.random_walks(g, wr, {"quick": 60, "thorough": 3000}[tier], 15, 60)):
             ty = types[wi % len(types)]
             xid = "%s-w%d-%s" % (cfg, wi, ty)
-            lines.append("X %s type=%s thrower=%d init=%s" % (xid, ty, thrower, enc(kind, g.states[init]["val"])))
+            # a crowd of further subscribers (none, 7, 8, 9, 17, 33, 70) in the walks that do not move the observable and have no thrower
+            crowd = [0, 7, 8, 9, 17, 33, 70][wi % 7] if kind != "str" and not thrower and not any(op_name(g, ei).startswith("Move") for ei in path) else 0
+            lines.append("X %s type=%s thrower=%d crowd=%d init=%s" % (xid, ty, thrower, crowd, enc(kind, g.states[init]["val"])))
             lines += [step_line(g, ei, kind) for ei in path]
             lines.append("E")
             meta[xid] = (path, ty)
@@ -117,6 +121,17 @@ def check(pid, tier, seed):
                     prob = "step %d (%s): the operator %s, but subscriber 2 %s" % (i, name, "threw" if r.get("threw") else "returned normally", "was notified and throws" if thrower else "does not throw")
                 elif r["ret"] != enc(kind, st["ret"]) and not r.get("threw"):
                     prob = "step %d (%s): operator result %s, model says %s" % (i, name, r["ret"], enc(kind, st["ret"]))
+                elif r.get("crowd"):
+                    # the further subscribers: all alike, at most once, and exactly when (and with what) the model's subscribers are notified
+                    c = r["crowd"]
+                    if c["min"] != c["max"] or c["max"] > 1:
+                        prob = "step %d (%s): of the further subscribers, number %d was notified %d times and number %d %d times" % (i, name, c["who_min"], c["min"], c["who_max"], c["max"])
+                    elif c["max"] == 1 and (not c["same"] or c["val"] != r["val"]):
+                        prob = "step %d (%s): a further subscriber was notified with %s, value() = %s" % (i, name, c["val"], r["val"])
+                    elif want_notes and c["max"] != 1:
+                        prob = "step %d (%s): the model's subscribers were notified, the further subscribers were not" % (i, name)
+                    elif not want_notes and c["max"] != 0 and (name in ("Subscribe", "Unsubscribe") or len(g.states[g.edges[ei][0]]["subs"]) > 0):
+                        prob = "step %d (%s): nobody is notified according to the model, the further subscribers were" % (i, name)
                 if prob and thrower:
                     # a subscriber that throws is outside C16's quantifier: reported, not judged
                     verdict.note("observable[%s, a subscriber throws] %s" % (ty, name), prob)
